@@ -22,7 +22,7 @@ def gen_cases(ctx):
     r = ctx.rng
     cases = []
     for ind in LASTN + LASTN1:
-        periods = [1, 2, 3, 4, 6] + [r.randint(7, 64) for _ in range(1 if not ctx.thorough else 5)]
+        periods = [1, 2, 3, 4, 6] + r.sample(range(7, 65), 1 if not ctx.thorough else 5)
         for p in periods:
             need = p + (1 if ind in LASTN1 else 0)
             for rep in range(3 if not ctx.thorough else 12):
